@@ -99,3 +99,10 @@ Example C14_duplicate_groups :
     Ok (mkDH 0 0 (len (body ++ vec8 [] ++ rest)), FCH (ch_set_curves x [24])) /\
   decode ST mCH (t_hdr tClientHello (body ++ rest)) = Ok (h0, FCH (ch_set_curves x [41; 23; 24])).
 Proof. vm_compute. split; reflexivity. Qed.
+
+(* the numbers and tables this property's model uses are the ones the sources declare: Model/GenConsts.v is
+   regenerated from the repository under test (tools/consts) before every build *)
+From V Require Import Model.GenConsts Proofs.TieC14.
+Theorem C14_constants_are_the_sources : TieC14.tie.
+Proof. exact TieC14.tie_holds. Qed.
+Print Assumptions C14_constants_are_the_sources.
